@@ -45,7 +45,8 @@ PROBES = ['A-no-address', 'A-all-refused', 'A-second-address-used', 'A-closed-du
           'B-proxy-introspected', 'B-proxy-by-name', 'B-two-proxies-same-object',
           'B-introspection-in-flight-at-loss', 'B-errback-issues-call', 'B-reset',
           'B-client-disconnect', 'B-callback-cancelled', 'B-proxy-dropped', 'B-second-connection',
-          'B-call-answered-with-error']
+          'B-call-answered-with-error', 'B-bound-method-callback', 'B-callback-registered-twice',
+          'B-callback-issues-call']
 COMPONENTS = {
     'real': ['txdbus.client.connect / DBusClientFactory / DBusClientConnection',
              'txdbus.endpoints.getDBusEndpoints', 'twisted UNIXClientEndpoint / TCP4ClientEndpoint / '
@@ -109,7 +110,8 @@ def part_a(ctx):
     entries = [ADDRS[ds.choose(len(ADDRS))] for _ in range(n)]
     address = ';'.join(e[1] for e in entries)
     real = [e for e in entries if e[0]]
-    outcomes = [ds.pickw([('refuse', 3), ('late-fail', 2), ('accept', 4)]) for _ in real]
+    outcomes = [ds.pickw([('refuse', 3), ('late-fail', 2), ('accept', 4), ('dns-fail', 1), ('odd-fail', 0.5)])
+                for _ in real]
     script = ds.pickw([('good', 5), ('reject-all', 2), ('close-after-k', 3),
                        ('close-before-hello-reply', 2), ('hello-error', 2)])
     ctx.config.update(part='A', address=address, outcomes=outcomes, script=script)
@@ -142,9 +144,10 @@ def part_a(ctx):
         a['outcome'] = o
         if o != 'accept':
             sim.fault('connect-refuse' if o == 'refuse' else 'connect-late-fail')
-            sim.call(node, a['factory'].clientConnectionFailed, a['connector'],
-                     Failure(tierror.ConnectionRefusedError() if o == 'refuse'
-                             else tierror.TimeoutError()))
+            exc = {'refuse': tierror.ConnectionRefusedError(), 'late-fail': tierror.TimeoutError(),
+                   'dns-fail': tierror.DNSLookupError('no such host'),
+                   'odd-fail': OSError(13, 'Permission denied')}[o]
+            sim.call(node, a['factory'].clientConnectionFailed, a['connector'], Failure(exc))
             return
         accepted.append(i)
         acc = list(MECHS)
@@ -390,19 +393,62 @@ def part_b(ctx):
         calls.append(c)
         sim.log('op', 'call', cid, sorted(kw))
 
+    class Holder:
+        def __init__(self, rec, label):
+            self.rec, self.label = rec, label
+
+        def on_lost(self, obj, reason):
+            self.rec['hits'].append((obj, reason))
+            sim.log('dc-cb', self.label, type(reason.value).__name__)
+            if lost[0] == 'settled':
+                after_loss_firings[0] += 1
+
+    late_calls = []
+
     def op_conn_cb():
-        rec = {'hits': [], 'active': True}
-        rec['fn'] = mk_cb(rec, 'conn%d' % len(conn_cbs))
+        rec = {'hits': [], 'active': True, 'want': 1}
+        k = ds.weighted([4, 2, 1, 1])
+        if k == 1:
+            # a bound method: every attribute access yields a new, equal object
+            h = Holder(rec, 'conn%d' % len(conn_cbs))
+            rec['holder'] = h
+            rec['fn'] = h.on_lost
+            sim.probe('B-bound-method-callback')
+            rig.call(cl.notifyOnDisconnect, h.on_lost)
+        elif k == 2:
+            # the same callable registered twice
+            rec['fn'] = mk_cb(rec, 'conn%d' % len(conn_cbs))
+            rec['want'] = 2
+            sim.probe('B-callback-registered-twice')
+            rig.call(cl.notifyOnDisconnect, rec['fn'])
+            rig.call(cl.notifyOnDisconnect, rec['fn'])
+        elif k == 3:
+            # a callback that reacts to the loss by issuing a call with a deadline
+            base = mk_cb(rec, 'conn%d' % len(conn_cbs))
+
+            def fn(obj, reason, base=base):
+                base(obj, reason)
+                sim.probe('B-callback-issues-call')
+                d2_ = rig.call(cl.callRemote, '/obj/a', 'FromCallback', interface='org.sim.Alpha',
+                               destination=SVC, timeout=3.0)
+                late_calls.append(Obs(sim, 'late-call', []).watch(d2_))
+            rec['fn'] = fn
+            rig.call(cl.notifyOnDisconnect, fn)
+        else:
+            rec['fn'] = mk_cb(rec, 'conn%d' % len(conn_cbs))
+            rig.call(cl.notifyOnDisconnect, rec['fn'])
         conn_cbs.append(rec)
-        rig.call(cl.notifyOnDisconnect, rec['fn'])
-        sim.log('op', 'notifyOnDisconnect')
+        sim.log('op', 'notifyOnDisconnect', k)
 
     def op_cancel_conn_cb():
         act = [r for r in conn_cbs if r['active']]
         if act:
             r = act[ds.choose(len(act))]
-            r['active'] = False
-            rig.call(cl.cancelNotifyOnDisconnect, r['fn'])
+            r['want'] -= 1
+            if r['want'] <= 0:
+                r['active'] = False
+            # (for a bound method a fresh, equal method object is passed)
+            rig.call(cl.cancelNotifyOnDisconnect, r['holder'].on_lost if 'holder' in r else r['fn'])
             sim.probe('B-callback-cancelled')
             sim.log('op', 'cancelNotifyOnDisconnect')
 
@@ -537,7 +583,7 @@ def part_b(ctx):
         raise Violation('C09/timer-survives', 'timer left', '%d timers pending after the loss'
                         % len(sim.pending_timers()))
     for i, r in enumerate(conn_cbs):
-        want = 1 if r['active'] else 0
+        want = r['want'] if r['active'] else 0
         if len(r['hits']) != want:
             raise Violation('C09/conn-callback', 'ran %d times, expected %d' % (len(r['hits']), want),
                             'connection disconnect callback %d (active=%s) ran %d times'
@@ -607,6 +653,13 @@ def part_b(ctx):
     check_no_exceptions(sim, 'C09')
     if after_loss_firings[0] or sum(len(c['obs'].fired) for c in calls) != nfired:
         raise Violation('C09/fires-after-loss', 'late firing', 'something fired after the loss settled')
+    for o in late_calls:
+        # issued while the loss was being delivered: it may fail with the loss reason at once or
+        # stay pending for ever; what it must not do is fire a deadline on a dead connection
+        if o.fired and o.fired[0][0] == 'err' and o.fired[0][1].check(t_error.TimeOut):
+            raise Violation('C09/fires-after-loss', 'deadline of a call issued by a disconnect callback',
+                            'a call issued from a disconnect callback timed out long after the '
+                            'connection was lost')
     check_no_logged_errors(ctx, 'C09')
     sim.state(('B', min(len(pend_at_loss), 4), len(conn_cbs),
                tuple(sorted(set(p['kind'] for p in proxies))), lost_mark))
